@@ -193,6 +193,37 @@ def rule_r4(ctx):
     return hidden_insts(ctx, "C14.R4", quals)
 
 
+def rule_r5(ctx):
+    """object cells: a copy of a chart's frame shares the Python objects stored in its cells; no function walks down to such an
+    object and edits it in place (sa/cells.py; expected count zero, positive control on every run)"""
+    from ..cells import CellWalk
+    M = ctx.M
+    W = CellWalk(M)
+    out = []
+    n = 0
+    for q in sorted(M.funcs):
+        if not q.startswith("reamber.") or CTL in q:
+            continue
+        n += 1
+        for h in W.run(q):
+            sink_fn = M.funcs[h.chain[-1]]
+            i = R.viol("C14.R5", f"{short(q)}:cell-edit", M.mods[sink_fn.mod].rel, h.line,
+                       f"{short(q)} takes a copy of a chart frame (copy / astype / to_dict share the objects stored in object-typed "
+                       f"cells), walks down to such an object and edits it in place ('{h.text}'"
+                       + (f", reached through {' -> '.join(short(x) for x in h.chain[1:])}" if len(h.chain) > 1 else "") +
+                       "): the chart it was given is modified", construct=f"{short(q)}: {h.text}")
+            i.reach = (q,)
+            out.append(i)
+    if not out:
+        out.append(R.ok("C14.R5", "no-cell-edit", "", 0, idiom=f"{n} functions: no in-place edit of an object reached through a frame's cells"))
+    return out
+
+
+def _control_r5() -> bool:
+    from ..cells import control
+    return control()
+
+
 def _control_r4() -> bool:
     from .hidden import control
     return control()
@@ -206,6 +237,8 @@ SPECS = [
     RuleSpec("C14.R3", rule_r3, 6, "A3", "every chart gets its own list objects (fresh defaults per instance)"),
     RuleSpec("C14.R4", rule_r4, 1, "A8", "no memoised results on editable objects, no class-level memo inherited by subclasses, no sharing copy hooks",
              control=_control_r4),
+    RuleSpec("C14.R5", rule_r5, 1, "A3", "no in-place edit of the objects stored in the cells of a (copied) chart frame",
+             control=_control_r5),
 ]
 
 META = dict(
@@ -215,7 +248,7 @@ META = dict(
         "results documented as copies must not alias an input.  Summaries (Mut, Ret, Alias) use 1-limited "
         "access paths and are iterated to a fixpoint over the call graph with class-hierarchy dispatch; the "
         "decorator-generated getters/setters of Property.py are analysed from their own bodies.  A listed "
-        "operation with a non-empty Mut is reported with the statement that writes and the call chain."),
+        "operation with a non-empty Mut is reported with the statement that writes and the call chain. R4 (expected count zero, positive control): no memoised result on an editable object, no getter that stores, no class-level memo inherited by subclasses, no __deepcopy__/__copy__ that lets a mutable field through uncopied.  R5 (sa/cells.py, positive control): a copy of a chart frame shares the Python objects stored in its cells (copy / astype / to_dict / itertuples); no function walks from such a copy down to a cell object and edits it in place."),
     not_decided="nothing numeric; mutation through a method absent from the pandas model is counted as "
                 "unresolved, never as a verdict",
 )
